@@ -26,7 +26,7 @@ CLAIMS["C05"] = ("ATOMIC: check-then-act pair detection with lock-held analysis 
 CLAIMS["C13"] = ("ownership of version creation/commit calls + dominance order of the two phases + must-pass-through in both transaction closures and the sweep + loop-continuation gate + compensation table agreement with ON DELETE CASCADE edges parsed from the SQL migrations",
   "Static decision of the two-phase protocol: versions only inside the helper, change log in tx1, commit loop stops at the first failure, compensation iff a commit failed, sweep per transaction id and only for uncommitted, consecutive versions, and every phase-1 table that decides subject existence is removed by the compensation. Exhaustive over the current source.",
   "Trusts go/ssa, gorm transaction/association semantics and SQL cascade enforcement; crash instants and SQL isolation are not decided.")
-CLAIMS["C19"] = ("PANICSITE: SSA inventory of six panic-capable construct kinds in the untrusted-input packages with dominating-guard recognition (access-path nil tests, comma-ok assertions, producer-type summaries) and a reviewed-safe table; FUEL checks on recursive resolvers and the IBLT decode loop; positive-control fixture",
+CLAIMS["C19"] = ("PANICSITE: SSA inventory of ten panic-capable construct kinds (D1–D10, incl. zero values of failed comma-ok forms and nil-on-failure standard-library results) in the untrusted-input packages with dominating-guard recognition (access-path nil tests, comma-ok assertions, producer-type summaries) and a reviewed-safe table; FUEL checks on recursive resolvers and the IBLT decode loop; positive-control fixture",
   "Static decision that every unchecked assertion, optional-pointer dereference, discarded-error dereference, nil-checked-elsewhere field use, explicit panic and (nil,nil)-result dereference in 38 input-facing packages is guarded or reviewed, and that reference-following resolvers and the IBLT peel loop keep their fuel. Found and repaired 12 genuine panics. Index bounds, dependency panics and general loop termination are not decided.",
   "Trusts go/ssa and the reviewed-safe table (105 named constructs with reasons in checker/props/c19_reviewed.go).")
 CLAIMS["C01"] = ("must-pass-through on the credential/presentation verifier and both signature algorithms (assumption-specialised on checkSignature/allowUntrusted/verifyVCs), refusal and dominance rules for the status-list verdict, argument provenance (issuer binding, resolve time, self-attested exception), issuer/wallet gates",
